@@ -1068,19 +1068,23 @@ fn api_cmd(args: &[String]) {
                 ends.push(u32::MAX - 1);
                 for e in ends {
                     for &v in &values {
-                        let scheme = if all_values { 0 } else { (s as u64 + e as u64 + v as u64 + n as u64) % 4 };
+                      for scheme in 0..4u64 {
+                        if !all_values && scheme != (s as u64 + e as u64 + v as u64 + n as u64) % 4 {
+                            continue;
+                        }
                         let cl = clusters(scheme, n);
                         let c = Case {
                             font: "A",
                             text: cl.iter().map(|k| (*gi, *k)).collect(),
                             feats: vec![Feature { tag: Tag::from_bytes(tag), value: v, start: s, end: e }],
-                            dir: if (s + e.wrapping_add(v)) % 3 == 0 { Direction::RightToLeft } else { Direction::LeftToRight },
+                            dir: if s.wrapping_add(e).wrapping_add(v) % 3 == 0 { Direction::RightToLeft } else { Direction::LeftToRight },
                             level: ((s + v) % 3) as u8,
                         };
                         check_case(&face_a, &fa, &c, &mut st);
                         if st.bad >= max_report {
                             break 'outer;
                         }
+                      }
                     }
                 }
             }
@@ -1169,28 +1173,33 @@ fn simple_features(face: &Face) -> Vec<CorpusFeature> {
     use rustybuzz::ttf_parser::gsub::SubstitutionSubtable as S;
     let mut out = Vec::new();
     let Some(gsub) = face.tables().gsub else { return out };
-    let mut seen: Vec<[u8; 4]> = Vec::new();
+    // a tag may have several feature records (per script/language): all of them must be of one simple kind
+    let mut tags: Vec<[u8; 4]> = Vec::new();
     for f in gsub.features {
         let tag = f.tag.to_bytes();
-        if seen.contains(&tag) {
-            // several feature records with one tag (per script/language): skip the tag altogether
-            out.retain(|x: &CorpusFeature| x.tag != tag);
-            continue;
+        if !tags.contains(&tag) {
+            tags.push(tag);
         }
-        seen.push(tag);
+    }
+    for tag in tags {
         let mut singles = 0;
         let mut alts = 0;
         let mut other = 0;
-        for li in f.lookup_indices {
-            let Some(l) = gsub.lookups.get(li) else {
-                other += 1;
+        for f in gsub.features {
+            if f.tag.to_bytes() != tag {
                 continue;
-            };
-            for st in l.subtables.into_iter::<S>() {
-                match st {
-                    S::Single(_) => singles += 1,
-                    S::Alternate(_) => alts += 1,
-                    _ => other += 1,
+            }
+            for li in f.lookup_indices {
+                let Some(l) = gsub.lookups.get(li) else {
+                    other += 1;
+                    continue;
+                };
+                for st in l.subtables.into_iter::<S>() {
+                    match st {
+                        S::Single(_) => singles += 1,
+                        S::Alternate(_) => alts += 1,
+                        _ => other += 1,
+                    }
                 }
             }
         }
@@ -1223,7 +1232,7 @@ fn corpus_cmd(args: &[String]) {
     let mut alt_cases = 0u64;
     // every other default feature is switched off globally, so that the feature under test is the only
     // optional lookup source (value 0 features allocate nothing)
-    let off: Vec<Feature> = DEFAULT_ON.iter().chain(["frac", "numr", "dnom"].iter()).map(|t| Feature { tag: Tag::from_bytes(&tag4(t)), value: 0, start: 0, end: u32::MAX }).collect();
+    let off: Vec<Feature> = DEFAULT_ON.iter().chain(["frac", "numr", "dnom", "rand"].iter()).map(|t| Feature { tag: Tag::from_bytes(&tag4(t)), value: 0, start: 0, end: u32::MAX }).collect();
     for path in shp::corpus_fonts(&shp::repo_root()) {
         if fonts_used >= max_fonts || st.bad >= 10 {
             break;
@@ -1241,7 +1250,8 @@ fn corpus_cmd(args: &[String]) {
         let mut used = false;
         let mut budget = per_font;
         for f in &sf {
-            if default_on(&f.tag) || budget == 0 {
+            // features the shaper drives itself (default-on, automatic fractions, random) are not tested here
+            if default_on(&f.tag) || [*b"frac", *b"numr", *b"dnom", *b"rand"].contains(&f.tag) || budget == 0 {
                 continue;
             }
             let tag = Tag::from_bytes(&f.tag);
